@@ -428,6 +428,10 @@ func opGetTF(h *Hist) {
 		own = []string{"C19"}
 		h.counters["probe:derived-retrieved-GetTF"]++
 	}
+	if k := h.byPtr[ptrOf(got)]; k != nil && k.Derived > 0 && !contains(own, "C19") {
+		// what came back is a derived value the model knows (possibly not the one that belongs there): a retrieval path of C19
+		own = append([]string{"C19"}, own...)
+	}
 	if p {
 		h.fail("unexpected-panic", "GetTF", own, fmt.Sprintf("GetTF(%q) on a resolvable path panicked: %s", ps, msg))
 		return
